@@ -138,6 +138,9 @@ pub fn router_for(payload: &Payload, opts: StreamOpts) -> Router {
     let step = pick(&[1usize, 3, 64, 4096]);
     let sleep_us = pick(&[0u64, 0, 50, 1_000]);
     let panics = simkernel::choose(3) == 0;
+    // a slow source is slow per read: keep the whole stream within a few simulated seconds
+    let reads = payload.logical().len() / step.max(1);
+    let sleep_us = if reads as u64 * sleep_us > 5_000_000 { 0 } else { sleep_us };
     let r = Router::new();
     match payload.clone() {
         Payload::Value(rec) => r.with_value_stream(move |res| if res == "res" { Some(rec.clone()) } else { None }, opts),
@@ -282,7 +285,7 @@ fn c09_raw(case: &Case) {
         case.harness_error("connect");
         return;
     };
-    s.set_read_timeout(Some(Duration::from_secs(30))).ok();
+    s.set_read_timeout(Some(Duration::from_secs(600))).ok();
     let mut id = 1u64;
     let mut call = |s: &mut TcpStream, path: &str, body: Vec<u8>| -> Option<Frame> {
         id += 1;
